@@ -57,11 +57,15 @@ type Envelope struct {
 	Part     string          `json:"part"`
 	Message  string          `json:"message,omitempty"`
 	Case     json.RawMessage `json:"case"`
+	// History holds the cases that ran in the same process right before the failing one. A replay runs them first, so
+	// that failures which depend on what an earlier call left behind reproduce from a fresh process.
+	History []json.RawMessage `json:"history,omitempty"`
 }
 
 type violation struct {
-	Message string          `json:"message"`
-	Case    json.RawMessage `json:"case"`
+	Message string            `json:"message"`
+	Case    json.RawMessage   `json:"case"`
+	History []json.RawMessage `json:"history,omitempty"` // cases that ran in the same process right before it
 }
 
 // Stats is what one process writes to VERIF_OUT.
@@ -90,8 +94,10 @@ type recorder struct {
 	st       Stats
 	fps      map[string]struct{}
 	ntSeen   int
+	recent   []json.RawMessage // the last few cases before the current one (history for state-dependent failures)
 	frozen   bool // after the first violation nothing more is counted (rapid is shrinking)
 	slowest  time.Duration
+	firstHistory []json.RawMessage
 	prewrite string
 }
 
@@ -159,6 +165,21 @@ func (r *recorder) record(c interface{}, o Outcome) {
 				r.st.Samples = append(r.st.Samples, s)
 			}
 		}
+	}
+}
+
+// remember keeps the last few (small) cases as history.
+func (r *recorder) remember(c interface{}) {
+	if r.frozen {
+		return
+	}
+	b, err := json.Marshal(c)
+	if err != nil || len(b) > 1<<16 {
+		return
+	}
+	r.recent = append(r.recent, b)
+	if len(r.recent) > 4 {
+		r.recent = r.recent[len(r.recent)-4:]
 	}
 }
 
@@ -257,10 +278,11 @@ func Run(t *testing.T, s Spec) {
 			if o.Violation != "" {
 				r.frozen = true
 				b, _ := json.Marshal(c)
-				r.st.Violation = &violation{Message: o.Violation, Case: b}
+				r.st.Violation = &violation{Message: o.Violation, Case: b, History: append([]json.RawMessage{}, r.recent...)}
 				done = false
 				return false
 			}
+			r.remember(c)
 			return true
 		})
 		r.st.Completed = true
@@ -294,9 +316,15 @@ func Run(t *testing.T, s Spec) {
 		if o.Violation != "" {
 			r.frozen = true
 			b, _ := json.Marshal(c)
-			r.st.Violation = &violation{Message: o.Violation, Case: b}
+			if r.st.Violation == nil {
+				// the first failing case: keep what ran before it (while rapid shrinks, the history stays that of the
+				// original failure)
+				r.firstHistory = append([]json.RawMessage{}, r.recent...)
+			}
+			r.st.Violation = &violation{Message: o.Violation, Case: b, History: r.firstHistory}
 			rt.Fatalf("violation: %s", o.Violation)
 		}
+		r.remember(c)
 	})
 }
 
@@ -336,6 +364,12 @@ func replay(t *testing.T, s Spec) {
 			fmt.Printf("REPLAY-ERROR %s %v\n", p, err)
 			t.Errorf("cannot decode case in %s: %v", p, err)
 			continue
+		}
+		for _, h := range e.History {
+			hc := s.New()
+			if json.Unmarshal(h, hc) == nil {
+				SafeCheck(s.Check, hc) // outcome irrelevant: it only re-creates what the process had seen before
+			}
 		}
 		o := SafeCheck(s.Check, c)
 		switch {
